@@ -155,6 +155,10 @@ class SemiSeekableBuffer:
         This method only works as long as there is headroom available. Returns True if
         seek was successful, otherwise False.
         """
+        # There is nothing before the start of the stream
+        if position < 0:
+            return False
+
         # This is a special case where we allow seeking to the current position
         if position == self.position:
             return True
